@@ -241,3 +241,39 @@ Proof.
   intros HF Hc n Hn Hx. destruct (covered_sound t c lo hi Hc n Hn) as [b Hb].
   exists b. split; [exact Hb|]. exact (lookup_ok ex tol t HF c n b Hb Hx).
 Qed.
+
+(* ================================================================== the weights sum to the measure *)
+
+Lemma qmono_zeros : forall pt k, qmono pt (repeat O k) == 1.
+Proof.
+  induction pt as [|x pt IH]; intros [|k]; simpl; try reflexivity. rewrite IH. ring.
+Qed.
+
+Lemma qrule_sum_zeros R k : qrule_sum R (repeat O k) == qweight_sum R.
+Proof. induction R as [|nd R IH]; simpl; [reflexivity|]. rewrite IH, qmono_zeros. ring. Qed.
+
+Lemma list_sum_firstn_zeros : forall d k, list_sum (firstn d (repeat O k)) = O.
+Proof. induction d as [|d IH]; intros [|k]; simpl; auto. Qed.
+
+Lemma skipn_zeros : forall d k, skipn d (repeat O k) = repeat O (k - d).
+Proof. induction d as [|d IH]; intros [|k]; simpl; auto. Qed.
+
+Lemma deg_ok_zeros : forall s n k, deg_ok s n (repeat O k).
+Proof.
+  induction s as [|d s IH]; intros n k; simpl; [exact I|].
+  rewrite list_sum_firstn_zeros, skipn_zeros. split; [lia|apply IH].
+Qed.
+
+Theorem rule_ok_weights s R n tol : rule_okQ s R n tol -> Qabs (qweight_sum R - measureQ s) <= tol.
+Proof.
+  intros [_ H]. unfold measureQ. rewrite <- (qrule_sum_zeros R (dim s)).
+  apply H; [apply repeat_length|apply deg_ok_zeros].
+Qed.
+
+Theorem table_weights (t : qtable) ex tol : Forall (entry_ok_ex ex tol) t ->
+  forall c n r, lookup t c n = Some (Rule r) -> excluded_b ex c n = false ->
+  Qabs (qweight_sum (toQ r) - measureQ (cshape c)) <= tol.
+Proof.
+  intros HF c n r Hl Hx. pose proof (lookup_ok ex tol t HF c n (Rule r) Hl Hx) as H.
+  simpl in H. exact (rule_ok_weights _ _ _ _ H).
+Qed.
